@@ -74,12 +74,17 @@ def run(ctx):
         steps = []
         for t in range(1, L + 1):
             steps.append(([rng.randint(0, 3) for _ in range(E)], [int(rng.random() < p) for _ in range(E)]))
+        # every third stream: a discount that is not a power of two (99/100, 9/10), returns identified up to 2% of 1/den^(n-1)
+        grat = None
+        if j % 3 == 2 and n <= 4:
+            grat = (9, 10) if (n == 4 or j % 2) else (99, 100)
         traces.append(nstep.run(n, E, N, gexp, OBS_KINDS[j % 4], steps, per=bool(j % 2), sample_every=rng.choice([0, 2, 5]),
-                                seed=ctx.seed + j))
-        ctx.case(("long", n, E, N, gexp, str(steps)))
+                                seed=ctx.seed + j, grat=grat))
+        ctx.case(("long", n, E, N, grat or gexp, str(steps)))
     ctx.sample({"nstep_trace_cfg": traces[40]["cfg"], "events": traces[40]["ev"][:4]})
     ctx.validate("NStep_Trace", TRACE_CFG, traces, sig=sig, what=what, chunk=400)
-    ctx.assume("gamma in {1, 1/2, 1/4} and small integer rewards so that float32 returns are exact")
+    ctx.assume("gamma in {1, 1/2, 1/4} and small integer rewards so that float32 returns are exact; for gamma in {9/10, 99/100} (n <= 4) a "
+               "float32 return is identified with the nearest multiple of 1/den^(n-1) if it lies within 2% of that unit")
     ctx.assume("truncation without done is not an episode boundary for this property; the driver feeds done flags only")
     rule = ("case = (n, envs, capacity, gamma, stream of (rewards, done flags)); grid: every placement of done flags for the "
             "listed small parameters; long: seeded random streams; non-trivial = at least one done flag in the stream")
